@@ -30,11 +30,16 @@ import (
 type Rewards struct {
 	Fraction string
 	Period   int64
+	Dup      bool // the consumer's reward-denom list names the fee denom twice (parameter validation allows it)
 }
 
 func (c Rewards) Name() string { return "rewards" }
 func (c Rewards) Params() map[string]any {
-	return map[string]any{"Fraction": c.Fraction, "Period": c.Period}
+	m := map[string]any{"Fraction": c.Fraction, "Period": c.Period}
+	if c.Dup {
+		m["Dup"] = true
+	}
+	return m
 }
 
 type rwNode struct {
@@ -70,7 +75,12 @@ func (c Rewards) NewWorker(stats *engine.Stats) (engine.Worker, error) {
 	}
 	w := &rwWorker{cfg: c, p: p, stats: stats, payer: env.NewAcct("payer")}
 	xw := &XWorld{P: p, CA: env.NewConsumerApp(), Stats: stats, Delay: 1}
-	xw.ConsumerGenesis = func(g *consumertypes.GenesisState) { g.Params.RewardDenoms = []string{feeDenom} }
+	xw.ConsumerGenesis = func(g *consumertypes.GenesisState) {
+		g.Params.RewardDenoms = []string{feeDenom}
+		if c.Dup {
+			g.Params.RewardDenoms = []string{feeDenom, feeDenom}
+		}
+	}
 	xw.AppGenesis = []func(map[string]json.RawMessage){func(g map[string]json.RawMessage) {
 		cdc := appConsumer.MakeTestEncodingConfig().Codec
 		acc := authtypes.NewBaseAccount(w.payer.Addr, w.payer.Priv.PubKey(), 0, 0)
